@@ -218,7 +218,66 @@ fn check_encode(tb: &Tables, s: &str, class: &str, p: &mut Part) {
     }
 }
 
+/// Miri slice: building the reference tables is far too slow under the interpreter, so a fixed set of
+/// well-known (marker, bytes, character) triples and round-trip strings is used instead. Miri's job here
+/// is undefined behaviour in encoding_rs / the conversion code on these paths, not table conformance.
+fn run_miri(ctx: &mut Ctx) -> (&'static str, String, bool) {
+    let (shard, nshards) = ctx.shard;
+    let triples: [(char, &[u8], char); 12] = [
+        ('L', &[0xE9], 'é'),
+        ('G', &[0xEB], 'λ'),
+        ('C', &[0xE6], 'ж'),
+        ('E', &[0xEC], 'ě'),
+        ('T', &[0xFD], 'ı'),
+        ('B', &[0xF2], 'ņ'),
+        ('J', &[0x82, 0xA0], 'あ'),
+        ('J', &[0x81, 0x5E], '／'),
+        ('S', &[0xD6, 0xD0], '中'),
+        ('K', &[0xC7, 0xD1], '한'),
+        ('H', &[0xA4, 0xA4], '中'),
+        ('L', &[0x80], '€'),
+    ];
+    let mut p = Part::new();
+    for (i, (m, bytes, ch)) in triples.iter().enumerate() {
+        if (i as u64) % nshards != shard {
+            continue;
+        }
+        p.evaluations += 1;
+        p.distinct(&(m, bytes));
+        let mut input = vec![b'^', *m as u8];
+        input.extend_from_slice(bytes);
+        match guarded(|| to_lossy_string(&input).to_string()) {
+            Ok(s) if s.chars().eq(std::iter::once(*ch)) => {},
+            other => p.violation(format!("C10/decode-table/{m}"), format!("bytes {} after ^{m}: {:?}", hex(bytes), other), json!({"input_hex": hex(&input)})),
+        }
+        for s in [format!("a{ch}b"), format!("{ch}L{ch}^8{ch}"), format!("ÿþ{ch}"), format!("{ch}").repeat(40)] {
+            let caret_free = s.replace('^', "");
+            p.evaluations += 1;
+            p.distinct(&caret_free);
+            match guarded(|| to_lossy_string(&to_lossy_bytes(&caret_free)).to_string()) {
+                Ok(back) if back == caret_free => {},
+                other => p.violation("C10/roundtrip/miri-sample", format!("{:?} -> {:?}", caret_free, other), json!({"input": caret_free})),
+            }
+        }
+    }
+    let mut r = ctx.rng.fork(1000 + shard);
+    for _ in 0..30 {
+        let len = r.usize_below(24);
+        let b: Vec<u8> = (0..len).map(|_| if r.chance(1, 3) { *r.pick(b"^^LGCETBJHSK8\x81\x5e\xff\xfe") } else { r.below(256) as u8 }).collect();
+        p.evaluations += 1;
+        p.distinct(&b);
+        if let Err(pn) = guarded(|| to_lossy_string(&b).len()) {
+            p.violation("C10/decode-panic", format!("to_lossy_string({}) panicked: {pn}", hex(&b)), json!({"input_hex": hex(&b)}));
+        }
+    }
+    ctx.merge(p);
+    ("exploration", "Miri slice: fixed (marker, bytes, character) triples decoded and round-tripped in several contexts, random hostile byte strings".into(), false)
+}
+
 pub fn run(ctx: &mut Ctx) -> (&'static str, String, bool) {
+    if ctx.stage.as_deref() == Some("miri") {
+        return run_miri(ctx);
+    }
     let tb = match load_tables() {
         Ok(t) => t,
         Err(e) => {
@@ -407,7 +466,7 @@ pub fn run(ctx: &mut Ctx) -> (&'static str, String, bool) {
             .into_par_iter()
             .map(|a| {
                 let mut p = Part::new();
-                let mut chk = |s: &[u8], p: &mut Part| {
+                let chk = |s: &[u8], p: &mut Part| {
                     p.evaluations += 1;
                     let st = std::str::from_utf8(s).unwrap();
                     match guarded(|| to_lossy_bytes(st).to_vec()) {
